@@ -30,12 +30,14 @@ CLAIMED.update({
                   'rules are not decided.'),
     },
     'C05': {
-        'technique': 'static analysis: finite-domain constant propagation over MIR + reference join model bounds + cross-table laws',
+        'technique': 'static analysis: finite-domain constant propagation over MIR + reference join model bounds + cross-table laws; state-machine extraction (transitions with path conditions) and finaliser-bypass contradiction rule',
         'level': ('Static, exhaustive over the ten join types (x JoinSide): final-emission tables of hash/NLJ/symmetric/piecewise '
                   'joins lie between the must/may bounds of the model, symmetric == asymmetric under negate+swap, empty-build/empty-map '
                   'short-circuits only where the model result is empty, probe-side tables stream a side that is in the output, '
                   'build_join_schema reads exactly the sides the model outputs and adds a non-nullable mark column only for mark '
-                  'joins. Hash maps, bitmaps, cursors, filters and batching are not decided.'),
+                  'joins; in the nested-loop join stream state machine (terminal / finaliser states and the entry condition of the finaliser derived '
+                  'from the code) no handler jumps to Done on a path that does not exclude the condition under which the global right-unmatched emission is owed. '
+                  'Hash maps, bitmaps, cursors, filters and batching are not decided.'),
     },
     'C28': {
         'technique': 'static analysis: finite-domain constant propagation over MIR; cross-table consistency of sibling decision tables',
